@@ -318,6 +318,9 @@ func (w *World) prelude() string {
 (declare-fun fsub (F F) F)
 (declare-fun fround (F) F)
 (declare-fun fabs (F) F)
+(declare-fun ffloor (F) F)
+(declare-fun fceil (F) F)
+(declare-fun ftrunc (F) F)
 (declare-fun fpow (F F) F)
 (declare-fun fle (F F) Bool)
 (declare-fun flt (F F) Bool)
